@@ -165,6 +165,8 @@ def run(prog, tier):
     obs.extend(dtype_hazard_obligations(prog, "float-arithmetic", ['inference/likelihoods.py']))
     from .common import call_order_obligations
     obs.extend(call_order_obligations(prog, "arguments-in-order", ['inference/likelihoods.py']))
+    from .common import identity_memo_obligations
+    obs.extend(identity_memo_obligations(prog, "result-keyed-on-values", ['inference/likelihoods.py']))
     obs.extend(overflow_obligations(prog, "overflow-safe", prog.subclasses("Likelihood")))
 
     meta = {
